@@ -928,16 +928,23 @@ impl<'a> BTreeCursor<'a> {
             return Ok(true);
         }
 
-        let next = page.right_sibling();
-        if next.as_u64() == 0 {
-            self.slot = count;
-            return Ok(false);
-        }
+        // Deletes never merge pages, so a leaf in the middle of the chain can be empty:
+        // keep following right siblings until a non-empty leaf (like cursor_lower_bound does).
+        let mut next = page.right_sibling();
+        loop {
+            if next.as_u64() == 0 {
+                self.slot = Page::new(&mut self.buf).cell_count() as u16;
+                return Ok(false);
+            }
 
-        self.leaf = next;
-        self.buf = self.pager.read_page(self.leaf)?;
-        self.slot = 0;
-        self.is_valid()
+            self.leaf = next;
+            self.buf = self.pager.read_page(self.leaf)?;
+            self.slot = 0;
+            if self.is_valid()? {
+                return Ok(true);
+            }
+            next = Page::new(&mut self.buf).right_sibling();
+        }
     }
 }
 
@@ -993,6 +1000,30 @@ mod tests {
         let mut cur = tree.cursor_lower_bound(&pager, &needle).unwrap();
         assert!(cur.is_valid().unwrap());
         assert_eq!(cur.key().unwrap(), k2);
+    }
+
+    #[test]
+    fn scan_continues_past_a_leaf_emptied_by_deletes() {
+        let dir = tempdir().unwrap();
+        let path = dir.path().join("btree-empty-leaf.ndb");
+        let mut pager = Pager::open(&path).unwrap();
+        let mut tree = BTree::create(&mut pager).unwrap();
+
+        // ~3 KB keys: two cells per leaf, so five keys spread over several leaves.
+        let key = |c: u8| {
+            let mut k = vec![b'.'; 3000];
+            k[0] = c;
+            k
+        };
+        for (i, c) in [b'a', b'b', b'c', b'd', b'e'].iter().enumerate() {
+            tree.insert(&mut pager, &key(*c), i as u64).unwrap();
+        }
+        // Empty the leaves in the middle of the chain.
+        assert!(tree.delete(&mut pager, &key(b'b'), 1).unwrap());
+        assert!(tree.delete(&mut pager, &key(b'c'), 2).unwrap());
+
+        let got: Vec<u64> = tree.scan_all(&mut pager).unwrap().into_iter().map(|(_, v)| v).collect();
+        assert_eq!(got, vec![0, 3, 4]);
     }
 
     #[test]
